@@ -259,7 +259,7 @@ def multi_module(ctx, case):
 
 def run(R):
     from .. import genmod
-    R.hyp("multi-module", genmod.modules_case(), multi_module, examples=R.pick(25, 600))
+    R.hyp("multi-module", genmod.modules_case(), multi_module, examples=R.pick(25, 200))
     R.require("multi-module-program")
     R.hyp("loose", genloose.loose_case(), check, examples=R.pick(300, 8000), shrink="ast")
     R.hyp("well-typed", allgen.any_case(loose=False), check, examples=R.pick(60, 2000), shrink="ast")
